@@ -23,10 +23,11 @@ const (
 	symF         // echo reply with a foreign id
 	symQ1        // echo REQUEST carrying the id of the first request
 	symS         // 7 byte ICMP message with type echo reply and the first id (malformed)
+	symX1        // the first id in a message whose type is the OTHER family's echo reply number (ICMPv6 type 0 / ICMPv4 type 129): not an echo reply
 	nSyms
 )
 
-var symNames = []string{"reply(id1)", "reply(id2)", "reply(foreign)", "request(id1)", "short(id1)"}
+var symNames = []string{"reply(id1)", "reply(id2)", "reply(foreign)", "request(id1)", "short(id1)", "othertype(id1)"}
 
 type pingEvent struct {
 	kind string // sent, returned, delivered
@@ -43,10 +44,16 @@ type pingLog struct {
 //go:norace
 func (l *pingLog) add(e pingEvent) { l.ev = append(l.ev, e) }
 
-func c19Scenario(v6second bool, seq []int) *concScenario {
+func c19Scenario(v6second bool, seq []int) *concScenario { return c19ScenarioF(v6second, seq, 0) }
+
+// c19ScenarioF: failAt > 0 makes the failAt-th transmission fail (environment deviation: the send error path).
+func c19ScenarioF(v6second bool, seq []int, failAt int) *concScenario {
 	name := "ping44"
 	if v6second {
 		name = "ping46"
+	}
+	if failAt > 0 {
+		name = fmt.Sprintf("%s-sendfail%d", name, failAt)
 	}
 	var parts []string
 	for _, s := range seq {
@@ -57,6 +64,7 @@ func c19Scenario(v6second bool, seq []int) *concScenario {
 		body: func(x *concExec) {
 			concReset()
 			s, conn := concSession()
+			conn.FailAt = failAt
 			x.data["session"] = s
 			log := &pingLog{}
 			x.data["log"] = log
@@ -147,6 +155,10 @@ func c19Scenario(v6second bool, seq []int) *concScenario {
 						if r, ok = pick(0); ok {
 							f = mk(r, 0, 129, r.id, true)
 						}
+					case symX1:
+						if r, ok = pick(0); ok {
+							f = mk(r, 129, 0, r.id, false)
+						}
 					}
 					if f == nil {
 						continue
@@ -192,7 +204,7 @@ func c19Scenario(v6second bool, seq []int) *concScenario {
 				case "returned":
 					returned++
 					obs = append(obs, fmt.Sprintf("ping%d=%s", e.who, e.err))
-					if strings.HasPrefix(e.err, "other:") {
+					if strings.HasPrefix(e.err, "other:") && failAt == 0 {
 						x.fail("result", fmt.Sprintf("ping %d returned %s", e.who, e.err))
 					}
 				case "delivered":
@@ -205,6 +217,12 @@ func c19Scenario(v6second bool, seq []int) *concScenario {
 			}
 			if returned != 2 {
 				return // deadlock/horizon is reported by the explorer
+			}
+			if failAt > 0 {
+				// a ping whose request could not be sent reports the send error; the other clauses are decided by the
+				// scenarios without a failure. Here: nobody hangs, nothing panics, no waiter entry is left behind.
+				x.obs = append(x.obs, strings.Join(obs, " "))
+				return
 			}
 			// per request: was a matching reply delivered strictly before its timer fired / only after / never
 			for _, sn := range sents {
@@ -310,14 +328,20 @@ func c19Scenarios(maxLen int) []*concScenario {
 		for _, seq := range c19Sequences(maxLen) {
 			l = append(l, c19Scenario(six, seq))
 		}
+		// environment deviation: the first or the second transmission fails
+		for _, failAt := range []int{1, 2} {
+			for _, seq := range [][]int{{}, {symR1}, {symR2}} {
+				l = append(l, c19ScenarioF(six, seq, failAt))
+			}
+		}
 	}
 	return l
 }
 
 func c19Run(c *core.Ctx, args []string) {
 	c.Res.Level = "model_checking"
-	c.Res.Rule = "for two concurrent pings (IPv4+IPv4 and IPv4+IPv6, timeout 2s) and every sequence of <=2 (thorough <=3) frames from {reply(id1), reply(id2), reply(foreign id), request(id1), 7-byte reply(id1)} delivered by one packet-loop thread (ids are read from the captured requests; WriteTo and the timer firing are scheduling points): stateless DFS over all schedules up to the deviation bound. Oracle per execution: a request whose matching reply was parsed before its timer fired must complete with nil, a request that never had a matching reply must return ErrTimeout, identifiers distinct, no panic, no waiter left. distinct = distinct observation vectors"
-	c.Res.Assumptions = []string{"a reply delivered after the timer fired but before the pinging goroutine ran may legitimately complete the ping or not (both accepted)", "send errors are outside the quantifier and are not injected", "a reply of the other address family carrying the right identifier is not in the alphabet (the statement does not decide it)"}
+	c.Res.Rule = "for two concurrent pings (IPv4+IPv4 and IPv4+IPv6, timeout 2s) and every sequence of <=2 (thorough <=3) frames from {reply(id1), reply(id2), reply(foreign id), request(id1), 7-byte reply(id1), id1 in a message typed with the other family's echo-reply number} delivered by one packet-loop thread (ids are read from the captured requests; WriteTo and the timer firing are scheduling points): stateless DFS over all schedules up to the deviation bound. Oracle per execution: a request whose matching reply was parsed before its timer fired must complete with nil, a request that never had a matching reply must return ErrTimeout, identifiers distinct, no panic, no waiter left; plus 12 scenarios in which the first or second transmission fails (the send-error path must not leave a waiter behind). distinct = distinct observation vectors"
+	c.Res.Assumptions = []string{"a reply delivered after the timer fired but before the pinging goroutine ran may legitimately complete the ping or not (both accepted)", "send errors: only 'the first/second transmission fails' is injected, as a one-step environment deviation", "a reply of the other address family carrying the right identifier is not in the alphabet (the statement does not decide it)"}
 	maxLen, bound := 2, 1
 	if c.Thorough() {
 		maxLen, bound = 3, 2
